@@ -303,6 +303,22 @@ P = [
  ("S-C19-a3", "C19", "CAP-period", "/verif/seeded/C19-a3/patch.diff"),
  ("S-C20-a3", "C20", "G-share-ratio", "/verif/seeded/C20-a3/patch.diff"),
 ]
+# behaviour-preserving refactors made by sub-agents (DESIGN 8.5b): every property must stay silent on each. The
+# property named here is the one whose thorough-tier self-test re-analyses the refactor in memory.
+for (rid, prop) in [("R01", "C16"), ("R02", "C10"), ("R03", "C09"), ("R04", "C12"), ("R05", "C05"), ("R06", "C07"),
+                    ("R07", "C20"), ("R08", "C15"), ("R09", "C14"), ("R10", "C17"), ("R11", "C18"), ("R12", "C19")]:
+    P.append((rid, prop, "", f"/verif/refactors/{rid}/patch.diff"))
+# "refactor of a seed" (DESIGN 8.5c): a confirmed seed composed with a behaviour-preserving refactoring that an agent
+# made of the seeded tree without knowing about the seed; the bug survives (the seed's demo still fails) and the
+# property's check must still fire.
+RS = [('C01-a4', 'D1'), ('C02-a2', 'L2-sub'), ('C03-a4', 'D3'), ('C04-a4', 'T-price-dur'), ('C05-a3', 'T-aliaskey'), ('C06-a2', 'T-refund-class'), ('C07-a2', 'G-rmv'), ('C08-a2', 'T-claim'), ('C09-a2', 'G-store-upd'), ('C10-a4', 'G-renew'), ('C11-a3', 'T-sched-shard'), ('C12-a2', 'T-replace'), ('C13-a3', 'CAP-sched-delete'), ('C14-a1', 'T-couple'), ('C15-a4', 'G-distinct'), ('C16-a4', 'T-persist'), ('C17-a3', 'G-bind'), ('C18-a4', 'E6-all'), ('C19-a2', 'G-fish'), ('C20-a3', 'G-promote')]
+for (sid, rule) in RS:
+    P.append(("RS-" + sid, sid.split("-")[0], rule, f"/verif/refactored_seeds/{sid}/combined.diff"))
+import glob as _glob
+for d in sorted(_glob.glob("/verif/refactors/R[0-9][0-9]")):
+    rid = os.path.basename(d)
+    if not any(x[0] == rid for x in P):
+        P.append((rid, "C10", "", d + "/patch.diff"))
 for (id, prop, rule, path) in P:
     M.append((id, prop, rule, [("@patch", path, "")]))
 
@@ -343,6 +359,29 @@ def hunks_of(patch_path):
     flush()
     return edits
 
+def whole_file_edits(patch_path):
+    """patch -> [(file, whole old content, whole new content)] by applying it in a scratch worktree of REPO
+    (robust where per-hunk text replacement is ambiguous); falls back to hunks_of."""
+    wt = "/tmp/mexp-wt"
+    sh(f"git -C {REPO} worktree remove --force {wt}")
+    if sh(f"git -C {REPO} worktree add --detach {wt} HEAD").returncode != 0:
+        return hunks_of(patch_path)
+    try:
+        if sh(f"git -C {wt} apply {patch_path}").returncode != 0:
+            return hunks_of(patch_path)
+        out = []
+        for line in sh(f"git -C {wt} status --porcelain -uall").stdout.splitlines():
+            f = line[3:].strip()
+            newc = open(os.path.join(wt, f)).read() if os.path.exists(os.path.join(wt, f)) else None
+            oldp = os.path.join(REPO, f)
+            oldc = open(oldp).read() if os.path.exists(oldp) else ""
+            if newc is None:
+                continue  # deletions are not representable as overlays; none of the recorded patches deletes a file
+            out.append((f, oldc, newc))
+        return out
+    finally:
+        sh(f"git -C {REPO} worktree remove --force {wt}")
+
 def export(path):
     import hashlib
     assert sh(f"git -C {REPO} status --porcelain").stdout.strip() == "", "repo tree must be clean"
@@ -351,7 +390,7 @@ def export(path):
         es = []
         for (f, old, new) in edits:
             if f == "@patch":
-                es += hunks_of(old)
+                es += whole_file_edits(old)
             else:
                 es.append((f, old, new))
         # skip no-op edits, verify applicability (sequentially, per file)
